@@ -230,6 +230,28 @@ def pair_variants(data, fields, first_type_off=None):
                 yield ('payload-pair', t, ln), bytes(b)
 
 
+def substructure_pairs(data, fields):
+    """Two cooperating fields INSIDE a payload: the kind octet of a substructure (selector type, proposal / transform 'more' marker, attribute type) x the length
+    (or value) field of the SAME substructure. A parser that treats an unknown kind specially (skips it, falls back) meets the hostile length on that path only."""
+    by_off = {}
+    for (level, field, off, size, exact) in fields:
+        by_off.setdefault(level, []).append((field, off, size, exact))
+    for level, kind_field, len_field in (('selector', 'type', 'length'), ('proposal', 'more', 'length'), ('transform', 'more', 'length'), ('attribute', 'type', 'value')):
+        items = by_off.get(level, [])
+        kinds = [f for f in items if f[0] == kind_field]
+        lens = [f for f in items if f[0] == len_field]
+        for (kf, ko, ks, kexact), (lf, lo, ls, lexact) in zip(kinds, lens):
+            for kv in ([0, 1, 6, 9, 200, 255] if ks == 1 else [0, 14, 0x800E, 0x7FFF, 0xFFFF]):
+                for lv in (0, 1, 2, 3, 4, 7, 8, 0xFFFF):
+                    b = bytearray(data)
+                    if ks == 1:
+                        b[ko] = kv
+                    else:
+                        struct.pack_into('>H', b, ko, kv)
+                    struct.pack_into('>H', b, lo, lv)
+                    yield (level + '-pair', kv, lv), bytes(b)
+
+
 def byte_mutations(data, rng, n):
     vals = [0, 1, 2, 3, 4, 5, 0x7F, 0x80, 0xFF]
     for _ in range(n):
